@@ -13,7 +13,7 @@ from kverif.common import Deadline, case_rng, stable_hash, tier_value
 ID = 'C06'
 LEVEL = 'exploration'
 EXHAUSTIVE = True
-RULE = ('exhaustive over world sizes W (quick 1..64, thorough 1..256, plus 98/147/196), every divisor k as k/W, colocate on/off, '
+RULE = ('exhaustive over world sizes W (quick 1..64, thorough 1..320, plus 98/147/196), every divisor k as k/W, colocate on/off, '
         'cost families (uniform, ties, zeros, geometric, random; 1..2W+1 layers), every local rank for W<=16 else {0,1,W//2,W-1,random}; '
         'construction through KFACPreconditioner (float and enum) with world size/rank patched; '
         'non-trivial: 1<k<W or cost ties; distinct = (W,k,colocate,family); repeated under PYTHONHASHSEED 0/1/4242 with equal digests required')
@@ -159,7 +159,7 @@ FAMS = ['uniform', 'ties', 'zeros', 'geometric', 'random']
 
 
 def worlds(tier):
-    base = list(range(1, tier_value(tier, 65, 257)))
+    base = list(range(1, tier_value(tier, 65, 321)))
     return base + [w for w in (98, 147, 196) if w not in base]
 
 
